@@ -248,7 +248,7 @@ class FakeCollection:
 
     def _maybe_fail(self, op):
         self.calls.append(op)
-        if self.fail_next and self.fail_next[0] in (op, '*'):
+        if self.fail_next and (self.fail_next[0] in (op, '*') or (isinstance(self.fail_next[0], tuple) and op in self.fail_next[0])):
             if len(self.fail_next) > 2 and self.fail_next[2] > 0:       # (op, exception, calls of op to let through first)
                 self.fail_next = (self.fail_next[0], self.fail_next[1], self.fail_next[2] - 1)
                 return
